@@ -17,13 +17,14 @@ import (
 )
 
 // runConc lets G goroutines arrange, fill, verify and free blocks of one
-// allocator. Every goroutine frees only blocks it holds. What the harness can
-// decide by itself is reported as a direct violation:
+// allocator. Every goroutine frees only blocks it holds. What the goroutines
+// can decide while running goes into the case as a list of codes (see k_viol in
+// run/Run_C17.v; the texts go to stderr and to the statistics):
 //   - an index handed out while another goroutine (or the same) still holds it,
 //   - a block whose content was changed while it was held,
 //   - FreeBlock of a held block failing, an index out of range, an unexpected error,
 //   - ErrExhausted although G*Hold < Count() (at no instant all blocks can be taken).
-// The final bookkeeping (held sets, counters, reopened state) goes to Coq.
+// The final bookkeeping (held sets, counters, reopened state) is checked in Coq.
 func runConc(c Case, s *hx.Sink) string {
 	st := &store{c: c, dir: flags.Out}
 	if c.Backend == "mmf" {
@@ -32,8 +33,8 @@ func runConc(c Case, s *hx.Sink) string {
 		defer os.Remove(st.path)
 	}
 	fail := func(what string, detail any) string {
-		s.DirectViolation(c.ID, what, detail)
-		return fmt.Sprintf("CConc %s (mkConc %s %s %s %s (-1) [] 0 0 0 0 [])", hx.N(c.ID), z(page), z(c.Bs), z(c.Size), hx.Bool(c.Fit))
+		fmt.Fprintf(os.Stderr, "case %d: %s: %v\n", c.ID, what, detail)
+		return fmt.Sprintf("CConc %s (mkConc %s %s %s %s (-1) [] 0 0 0 0 [] [9%%N])", hx.N(c.ID), z(page), z(c.Bs), z(c.Size), hx.Bool(c.Fit))
 	}
 	if err := st.open(true); err != nil {
 		return fail("storage could not be created", err.Error())
@@ -51,13 +52,15 @@ func runConc(c Case, s *hx.Sink) string {
 	owner := make([]atomic.Int32, count)
 	var arranged, freed atomic.Int64
 	var vmu sync.Mutex
-	nviol := 0
-	viol := func(what string, detail any) {
+	var codes []string
+	var texts []string
+	viol := func(code int, what string, detail any) {
 		vmu.Lock()
-		if nviol < 5 {
-			s.DirectViolation(c.ID, what, detail)
+		if len(codes) < 8 {
+			codes = append(codes, fmt.Sprintf("%d%%N", code))
+			texts = append(texts, fmt.Sprintf("case %d: %s: %v", c.ID, what, detail))
+			fmt.Fprintf(os.Stderr, "case %d: %s: %v\n", c.ID, what, detail)
 		}
-		nviol++
 		vmu.Unlock()
 	}
 	mayExhaust := c.G*c.Hold >= count
@@ -69,7 +72,7 @@ func runConc(c Case, s *hx.Sink) string {
 			defer wg.Done()
 			defer func() {
 				if r := recover(); r != nil {
-					viol("panic in a concurrent call", fmt.Sprint(r))
+					viol(7, "panic in a concurrent call", fmt.Sprint(r))
 				}
 			}()
 			r := prng.New(flags.Seed, "C17conc", c.ID*64+uint64(g))
@@ -80,24 +83,24 @@ func runConc(c Case, s *hx.Sink) string {
 					idx, err := b.ArrangeBlock()
 					if err != nil {
 						if !errors.Is(err, gerrors.ErrExhausted) {
-							viol("ArrangeBlock: unexpected error", err.Error())
+							viol(5, "ArrangeBlock: unexpected error", err.Error())
 						} else if !mayExhaust {
-							viol("ArrangeBlock: ErrExhausted while blocks are free", fmt.Sprintf("goroutines*hold=%d < count=%d", c.G*c.Hold, count))
+							viol(6, "ArrangeBlock: ErrExhausted while blocks are free", fmt.Sprintf("goroutines*hold=%d < count=%d", c.G*c.Hold, count))
 						}
 						continue
 					}
 					if idx < 0 || idx >= count {
-						viol("ArrangeBlock: index out of range", idx)
+						viol(4, "ArrangeBlock: index out of range", idx)
 						continue
 					}
 					arranged.Add(1)
 					if !owner[idx].CompareAndSwap(0, int32(g+1)) {
-						viol("ArrangeBlock handed out an index that is still allocated", idx)
+						viol(1, "ArrangeBlock handed out an index that is still allocated", idx)
 						continue
 					}
 					blk, err := b.Block(idx)
 					if err != nil || len(blk) != int(c.Bs) {
-						viol("Block of an arranged index failed", idx)
+						viol(8, "Block of an arranged index failed", idx)
 					} else {
 						for k := range blk {
 							blk[k] = pat
@@ -111,14 +114,14 @@ func runConc(c Case, s *hx.Sink) string {
 					if blk, err := b.Block(idx); err == nil {
 						for _, x := range blk {
 							if x != pat {
-								viol("content of a held block changed", idx)
+								viol(2, "content of a held block changed", idx)
 								break
 							}
 						}
 					}
 					owner[idx].Store(0)
 					if err := b.FreeBlock(idx); err != nil {
-						viol("FreeBlock of a held block failed", fmt.Sprintf("idx=%d err=%v", idx, err))
+						viol(3, "FreeBlock of a held block failed", fmt.Sprintf("idx=%d err=%v", idx, err))
 					} else {
 						freed.Add(1)
 					}
@@ -135,7 +138,7 @@ func runConc(c Case, s *hx.Sink) string {
 			if blk, err := b.Block(int(i)); err == nil {
 				for _, x := range blk {
 					if x != byte(g+1) {
-						viol("content of a held block changed", i)
+						viol(2, "content of a held block changed", i)
 						break
 					}
 				}
@@ -146,7 +149,7 @@ func runConc(c Case, s *hx.Sink) string {
 	var rset []int64
 	if c.Backend == "mmf" {
 		if err := b.Close(); err != nil {
-			viol("Close failed", err.Error())
+			viol(9, "Close failed", err.Error())
 		}
 		st.buf = nil
 		if err := st.open(false); err != nil {
@@ -158,7 +161,7 @@ func runConc(c Case, s *hx.Sink) string {
 		var sane bool
 		rset, sane = recoverSet(b2)
 		if !sane {
-			viol("recovering the allocated set from the reopened bytes failed", nil)
+			viol(9, "recovering the allocated set from the reopened bytes failed", nil)
 		}
 	}
 	hs := make([]string, len(held))
@@ -169,6 +172,10 @@ func runConc(c Case, s *hx.Sink) string {
 		tot += len(mine)
 	}
 	s.Count(fmt.Sprintf("conc:held-at-end:%d", tot))
-	return fmt.Sprintf("CConc %s (mkConc %s %s %s %s %s %s %s %s %s %s %s)", hx.N(c.ID), z(page), z(c.Bs), z(c.Size), hx.Bool(c.Fit),
-		z(int64(count)), hx.List(hs), z(arranged.Load()), z(freed.Load()), z(int64(avail)), z(ravail), ranges(rset))
+	if len(texts) > 0 {
+		prev, _ := s.Extra["concurrent_violations"].([]string)
+		s.Extra["concurrent_violations"] = append(prev, texts...)
+	}
+	return fmt.Sprintf("CConc %s (mkConc %s %s %s %s %s %s %s %s %s %s %s %s)", hx.N(c.ID), z(page), z(c.Bs), z(c.Size), hx.Bool(c.Fit),
+		z(int64(count)), hx.List(hs), z(arranged.Load()), z(freed.Load()), z(int64(avail)), z(ravail), ranges(rset), hx.List(codes))
 }
